@@ -186,8 +186,20 @@ func (dec *ttlvReader) validate() error {
 	if len(dec.buf[8:]) < dec.paddedLen() {
 		return Errorf("TTLV value too short. Got %d bytes, expected %d", len(dec.buf[8:]), dec.paddedLen())
 	}
-	if ty := dec.Type(); ty > TypeInterval || ty == 0 {
+	ty := dec.Type()
+	if ty > TypeInterval || ty == 0 {
 		return Errorf("invalid TTLV type %s", ty)
+	}
+	// Fixed width types: the readers index 4 or 8 bytes of the value
+	switch ty {
+	case TypeInteger, TypeEnumeration, TypeInterval:
+		if dec.len() != 4 {
+			return Errorf("invalid TTLV length %d for type %s", dec.len(), ty)
+		}
+	case TypeLongInteger, TypeBoolean, TypeDateTime:
+		if dec.len() != 8 {
+			return Errorf("invalid TTLV length %d for type %s", dec.len(), ty)
+		}
 	}
 	// if th := (dec.Tag() >> 16) & 0xFF; th != 0x42 && th != 0x54 {
 	// 	return Errorf("invalid TTLV tag %X", dec.Tag())
@@ -286,7 +298,14 @@ func (dec *ttlvReader) Struct(tag int, f func(reader) error) error {
 	if err := dec.assertType(TypeStructure, tag); err != nil {
 		return err
 	}
-	if err := f(&ttlvReader{buf: dec.value()}); err != nil {
+	// The reader of the children is limited to the structure's extent and its first item is validated
+	// like every other item is by Next()
+	val := dec.value()
+	sub := &ttlvReader{buf: val[:len(val):len(val)]}
+	if err := sub.validate(); err != nil {
+		return err
+	}
+	if err := f(sub); err != nil {
 		return err
 	}
 	return dec.Next()
